@@ -138,6 +138,7 @@ class SlidingTilePuzzleH(Harness):
                  b.implies(vs(ts.reward) == self._reward_ref(vs(st.puzzle), vs(st.puzzle))))]
 
     REWARD_VARIANTS = [{}, {"reward_fn": "sparse"}]
+    REF_REWARD_VARIANTS = True   # ref_step follows the configured reward function (C09 runs the variants too)
 
     def __init__(self, cfg, **over):
         if over.get("reward_fn") == "sparse":
